@@ -321,9 +321,17 @@ def ov_case(case):
     def fn(k):
         _SPY_TL.mean = None
         ov = OnlineVariance()
+        work = None
         for i in range(n):
             if assign[i] == k:
-                ov.update(vals[i].copy() if isinstance(vals[i], np.ndarray) else vals[i], weight=w[i])
+                if case.get('inplace') and isinstance(vals[i], np.ndarray):
+                    # the caller keeps one work array per rank and refills it in place for every sample
+                    if work is None:
+                        work = np.empty_like(vals[i], dtype=np.float64)
+                    work[...] = vals[i]
+                    ov.update(work, weight=w[i])
+                else:
+                    ov.update(vals[i].copy() if isinstance(vals[i], np.ndarray) else vals[i], weight=w[i])
         v = ov.parallelVariance()
         return {'var': v, 'mean': _SPY_TL.mean, 'count': ov.count}
 
@@ -404,6 +412,9 @@ def ov_cases(tier):
                 continue
             seen.add(key)
             cases.append({'R': R, 'n': n, 'w': list(w), 'assign': list(assign), 'shape': shape, 'vals': vals})
+            if shape in ('vec', 'mat') and vals == 'generic' and n >= 2 and all(x > 0 for x in w):
+                cases.append({'R': R, 'n': n, 'w': list(w), 'assign': list(assign), 'shape': shape, 'vals': vals,
+                              'inplace': True})
     devs = [('vec', 'generic'), ('scalar', 'generic'), ('mat', 'generic'), ('vec', 'const'), ('vec', 'offset'),
             ('vec', 'pair')]
     if tier == 'quick':
